@@ -1,6 +1,7 @@
 #!/bin/bash
 # usage: tools/muttest.sh <patch.diff | mutation.py> <prop>...   -- runs the checks against a scratch worktree with the change applied
 set -u
+V=$(cd "$(dirname "$0")/.." && pwd)
 W=${MUT_W:-/tmp/rw}
 [ -d $W ] || git -C /repo worktree add -q --detach $W HEAD
 git -C $W checkout -q --detach main 2>/dev/null; git -C $W checkout -q -- .
@@ -11,6 +12,6 @@ case "$ch" in
 esac
 git -C $W diff --stat | tail -1
 for p in "$@"; do
-  (cd /verif && VERIF_BUILD=${W}_build VERIF_EVIDENCE=${W}_build/evidence VERIF_REPO=$W python3 run.py check $p ${TIER:+--tier $TIER} | grep -E "^(VIOLATION|INCONCLUSIVE|OK|KNOWN)" | cut -c1-300 | head -${LINES_MAX:-4}); true
+  (cd $V && VERIF_BUILD=${W}_build VERIF_EVIDENCE=${W}_build/evidence VERIF_REPO=$W python3 run.py check $p ${TIER:+--tier $TIER} | grep -E "^(VIOLATION|INCONCLUSIVE|OK|KNOWN)" | cut -c1-300 | head -${LINES_MAX:-4}); true
 done
 git -C $W checkout -q -- .
